@@ -65,7 +65,7 @@ class GhostFlag:
         return self.state
 
 
-@harness('S3', targets=['kopf._cogs.aiokits.aiotasks.guard', 'kopf._cogs.aiokits.aiotasks.cancel_coro'], props=['C20'],
+@harness('S3', targets=['kopf._cogs.aiokits.aiotasks.guard', 'kopf._cogs.aiokits.aiotasks.cancel_coro'], props=['C20', 'C01', 'C03', 'C09', 'C12', 'C13', 'C17', 'C19'],
          clauses=['not_started_before_flag', 'cancelled_while_waiting_closed_unrun', 'outcome_propagates', 'waits_for_the_given_flag'],
          canaries=['canary.always_started', 'canary.never_fails'],
          trusted=['asyncio.Event.wait returns only when the event is set; coroutine.close() does not run the coroutine body'])
@@ -600,7 +600,7 @@ def U1(vc):
     return ('spawned', len(tasks_made), sorted(exempt_seen))
 
 
-@harness('S3g', targets='kopf._cogs.aiokits.aiotasks.create_guarded_task', props=['C20'],
+@harness('S3g', targets='kopf._cogs.aiokits.aiotasks.create_guarded_task', props=['C20', 'C01', 'C09', 'C13', 'C17', 'C19'],
          clauses=['task_of_guard_with_same_flag'], canaries=['canary.flag_dropped'])
 def S3g(vc):
     """create_guarded_task(coro, name, flag=f, ...) creates ONE task, of guard(coro, flag=f) for the same coroutine and
@@ -890,7 +890,7 @@ class GhostTask:
         return f'<task {self.name}>'
 
 
-@harness('S4', targets='kopf._cogs.aiokits.aiotasks.stop', props=['C20', 'C19'],
+@harness('S4', targets='kopf._cogs.aiokits.aiotasks.stop', props=['C20', 'C19', 'C09'],
          clauses=['cancels_every_task', 'waits_until_none_pending', 'partition_kept', 'cancellation_propagates', 'empty_is_noop'],
          canaries=['canary.single_round'],
          trusted=['aiotasks.wait by contract S4w: returns a partition (done, pending) of the given tasks'],
@@ -972,7 +972,7 @@ def S4(vc):
     return ('stopped', n)
 
 
-@harness('S4w', targets='kopf._cogs.aiokits.aiotasks.wait', props=['C20', 'C09'],
+@harness('S4w', targets='kopf._cogs.aiokits.aiotasks.wait', props=['C20', 'C09', 'C01', 'C06', 'C13', 'C19'],
          clauses=['empty_is_safe', 'delegates'], canaries=['canary.always_delegates'],
          trusted=['asyncio.wait: returns a partition (done, pending) of the given tasks; raises ValueError for an empty set'])
 def S4w(vc):
